@@ -7,6 +7,7 @@
 From Coq Require Import List Arith Lia Bool PeanoNat String.
 Import ListNotations.
 From SP Require Import Skel Gen Expected Result TaskFS TInv TPres Glue Cor TaskTop.
+From SP Require FailWindow.
 
 (* T1: order of phases in Task.Execute and FinalizePaths; every failure exits the process; FileIP.Write goes beneath the temp dir *)
 Theorem C01_code_conforms :
@@ -65,9 +66,47 @@ Theorem C01_nonvacuous :
             /\ fin s 1 = Some 8 /\ fin s 0 = None.
 Proof. eexists. split; [vm_compute; reflexivity|]. split; reflexivity. Qed.
 
+(* The program does not end in the step in which a task fails: the report is written first (it contains all the command
+   printed; the writer may be slow), os.Exit comes after it, and every other task goes on meanwhile.  FailWindow refines
+   TaskFS accordingly (a failed task takes no further step; WExit comes at any later time) and shows that the refined
+   system only visits TaskFS states -- so atomicity holds throughout that window, for every length of it ... *)
+Theorem C01_window_atomic : forall (c : cfg) (f0 : fs) (left0 : nat -> bool), wfc c ->
+  forall w, FailWindow.wreachable c f0 left0 w ->
+  forall t x, t < nt c -> In x (tout (tk c t)) ->
+  fin (FailWindow.base w) x = f0 x \/
+  (past_cmd (pcs (FailWindow.base w) t) = true /\
+   sem (tk c t) (map (fin (FailWindow.base w)) (tin (tk c t))) = Some (val (FailWindow.base w) t) /\
+   fin (FailWindow.base w) x = TInv.lookup x (tout (tk c t)) (val (FailWindow.base w) t) /\ fin (FailWindow.base w) x <> None).
+Proof. intros c f0 left0 WF w R. exact (FailWindow.window_atomic c f0 left0 WF w R). Qed.
+
+(* ... and nothing of a task that failed ever reaches its final paths, whatever the others do before the program is gone *)
+Theorem C01_window_failed_leaves_nothing : forall (c : cfg) (f0 : fs) (left0 : nat -> bool), wfc c ->
+  forall w, FailWindow.wreachable c f0 left0 w ->
+  forall t x, t < nt c -> FailWindow.failed w t = true -> In x (tout (tk c t)) -> fin (FailWindow.base w) x = f0 x.
+Proof. intros c f0 left0 WF w R. exact (FailWindow.window_failed_leaves_nothing c f0 left0 WF w R). Qed.
+
+(* the window exists: one task fails, another one finalizes its output before the program ends *)
+Theorem C01_window_nonvacuous :
+  exists w tr, FailWindow.wrun FailWindow.w_cfg (FailWindow.winit FailWindow.w_cfg (fun _ => None) (fun _ => false)) FailWindow.w_sched = Some (w, tr)
+    /\ FailWindow.gone w = true /\ FailWindow.failed w 0 = true /\ fin (FailWindow.base w) 0 = None
+    /\ fin (FailWindow.base w) 1 = Some 5 /\ pcs (FailWindow.base w) 1 = DoneRan.
+Proof. exact FailWindow.window_example. Qed.
+
+(* what both rest on is that Fail does not return (T1: exp_Fail ends in os.Exit on its only path).  Let a second failure,
+   reported while the first report is still being written, return to its caller instead, and the partial file of a command
+   that exited non-zero is renamed to its final path: *)
+Theorem C01_returning_fail_refuted :
+  exists w, FailWindow.returning_run FailWindow.r_cfg (FailWindow.winit FailWindow.r_cfg (fun _ => None) (fun _ => false)) FailWindow.r_sched = Some w
+    /\ FailWindow.gone w = true /\ sem (tk FailWindow.r_cfg 1) [] = None /\ fin (FailWindow.base w) 1 = Some 77.
+Proof. exact FailWindow.returning_fail_refuted. Qed.
+
 Print Assumptions C01_code_conforms.
 Print Assumptions C01_order_facts.
 Print Assumptions C01_atomic.
 Print Assumptions C01_failed_leaves_nothing.
 Print Assumptions C01_confined.
 Print Assumptions C01_nonvacuous.
+Print Assumptions C01_window_atomic.
+Print Assumptions C01_window_failed_leaves_nothing.
+Print Assumptions C01_window_nonvacuous.
+Print Assumptions C01_returning_fail_refuted.
